@@ -183,5 +183,9 @@ func verifDBPath(fail bool) string {
 
 // verifFaulted reports whether an injected save fault fired during the call.
 func verifFaulted() bool {
+	if !symbolic() {
+		// natively the write fault is realised by an unwritable path and is not seen by the ghost counters
+		return verifWriteFails || ghostCount("aead.encrypt.failed") > 0
+	}
 	return ghostCount("disk.write.failed")+ghostCount("aead.encrypt.failed") > 0
 }
